@@ -28,7 +28,7 @@ def _insert(cx, obj, xs, nums, via):
             obj.insert_knot(u=xs[0], v=xs[1], w=xs[2], num_u=nums[0], num_v=nums[1], num_w=nums[2])
 
 
-def h_insert(cx, sp, steps, via='operations'):
+def h_insert(cx, sp, steps, via='operations', after_sibling=False):
     """steps: list of {dir: num}; every step gets its own symbolic parameter(s)"""
     GE = geo.M('exceptions').GeomdlException
     obj, info = shapes.build(cx, sp)
@@ -64,6 +64,9 @@ def h_insert(cx, sp, steps, via='operations'):
                 _insert(cx, obj, xs, nums, via)        # wrapper prints the error and returns
             shapes.same_state(cx, 'step%d.unchanged' % si, obj, before)
             continue
+        if after_sibling and si == 0:
+            # the same insertion (same parameter values) was done on another shape of the same kind just before
+            shapes.prime_with_sibling(cx, sp, lambda sib, _i: _insert(cx, sib, xs, nums, via))
         _insert(cx, obj, xs, nums, via)
         after = shapes.snapshot(obj)
         for d in range(pd):
@@ -119,11 +122,11 @@ def instances(tier):
     out = []
     quick = tier == 'quick'
 
-    def add(sp, steps, via='operations', timeout=600):
-        nm = '%s ins[%s] %s' % (spec_name(sp), _steps_name(steps), via)
+    def add(sp, steps, via='operations', timeout=600, after_sibling=False):
+        nm = '%s ins[%s] %s%s' % (spec_name(sp), _steps_name(steps), via, ' after a sibling' if after_sibling else '')
         if any(i.name == nm for i in out):
             return
-        out.append(inst('%s ins[%s] %s' % (spec_name(sp), _steps_name(steps), via), h_insert, timeout=timeout, sp=sp, steps=steps, via=via))
+        out.append(inst(nm, h_insert, timeout=timeout, sp=sp, steps=steps, via=via, after_sibling=after_sibling))
 
     # curves
     for p in ((1, 2, 3) if quick else (1, 2, 3, 4, 5)):
@@ -146,6 +149,12 @@ def instances(tier):
             add(spec('curve', (p,), ((),), rational=True), [{0: 1}, {0: p - 1}])
         if not quick:
             add(spec('curve', (p,), ((1,),), rational=False), [{0: 1}, {0: 1}, {0: 1}], timeout=1200)
+    # the same insertion was applied to another shape first (memoised helpers, module state)
+    for sp_, st_, via_ in [(spec('curve', (2,), ((1,),), rational=False), [{0: 1}], 'operations'), (spec('curve', (3,), ((2,),), rational=True), [{0: 1}], 'method'),
+                           (spec('curve', (2,), ((1, 1),), rational=True), [{0: 2}], 'operations'),
+                           (spec('surface', (1, 2), ((1,), ()), rational=False), [{1: 1}], 'operations'), (spec('surface', (2, 1), ((), (1,)), rational=False), [{0: 1, 1: 1}], 'operations'),
+                           (spec('volume', (1, 1, 2), ((), (1,), ()), rational=False), [{2: 1}], 'operations')]:
+        add(sp_, st_, via=via_, timeout=1200, after_sibling=True)
     add(spec('curve', (2,), ((1,),), rational=True, lo=2, hi=5), [{0: 2}])
     add(spec('curve', (2,), ((1, 1),), rational=False, lo=-1, hi=1), [{0: 1}])
     add(spec('curve', (3,), ((1,),), rational=True, lo=-2, hi=3), [{0: 2}], via='method')
